@@ -84,6 +84,22 @@ def rule_lfs(ctx, rep):
                       "node->next and the expected value come from the same variable, refreshed by the failed cmpxchg", "push retries with a stale expected value / next pointer", [st[0].where(), c.inst.where()])
             rep.check(ir.expr(f, c.new) == ("arg", 1), "C11.lfs", tag + ".new=node", "cmpxchg installs the node", "cmpxchg installs %s" % ir.expr_str(ir.expr(f, c.new)), [c.inst.where()])
             rep.check(c.inst not in [i for i in f.all_insts() if False] and f.dominates(st[0], c.inst), "C11.lfs", tag + ".order", "store dominates cmpxchg", "node->next stored after the cmpxchg", [st[0].where()])
+            # result `stack was non-empty` = (the head value the successful cmpxchg replaced != NULL): it is computed from the
+            # expected-value variable (or the cmpxchg result, equal to it on the success edge), not from anything remembered
+            # from earlier, failed attempts
+            for r in f.rets():
+                if not r.args:
+                    continue
+                e = ir.expr(f, r.args[0], 6)
+                neg = False
+                if e[0] == "bin" and e[1] == "xor" and e[3] == ("c", -1):
+                    e, neg = e[2], True
+                okr = False
+                if e[0] == "icmp" and e[3] == ("c", 0) and ((e[1] == "ne" and not neg) or (e[1] == "eq" and neg)):
+                    v = e[2]
+                    okr = v == ("phi", exp[1]) or (v[0] in ("asm", "cmpxchg") and v[-1] == c.inst.id) or (v[0] == "cmpxchg" and v[2] == c.inst.id)
+                rep.check(okr, "C11.lfs", tag + ".ret=replaced-head!=NULL", "push returns whether the head it replaced was non-NULL",
+                          "push result is %s, not (replaced head != NULL): it can disagree with the order in which pushes and pops took effect" % ir.expr_str(ir.expr(f, r.args[0], 6)), [r.where()])
     for name in ("___cds_lfs_pop", "_cds_lfs_pop_rcu"):
         for lib, f in copies(ctx, name):
             rep.touch(f)
@@ -176,11 +192,36 @@ def rule_iter(ctx, rep):
         dtable.compare(rep, "C11.ret", name, f, exp, what)
 
 
+def rule_macro(ctx, rep):
+    """the for_each iteration macros (witness/wfiter.c): start at first(), body iff non-NULL, step = next(cursor); _safe variants
+    fetch the successor before the body and never touch the cursor afterwards"""
+    from .. import itermacro
+    m = ctx.mod("w_wfiter", "flat")
+    table = [
+        ("w_iter_cds_wfs_for_each_blocking", "cds_wfs_first", "cds_wfs_next_blocking", 1, False, None),
+        ("w_iter_cds_wfs_for_each_blocking_safe", "cds_wfs_first", "cds_wfs_next_blocking", 1, True, None),
+        ("w_iter_cds_lfs_for_each", None, None, 1, False, ("cds_lfs_head.node", "cds_lfs_node.next")),
+        ("w_iter_cds_lfs_for_each_safe", None, None, 1, True, ("cds_lfs_head.node", "cds_lfs_node.next")),
+    ]
+    for name, first, nxt, nargs, safe, lfs in table:
+        f = m.fn(name)
+        pat.require(f is not None, "witness %s vanished" % name)
+        itermacro.check(rep, "C11.macro", f, first, nxt, nargs, safe, lfs)
+    # inventory: every for_each macro of the public headers has a witness
+    import re
+    hdrs = {"C10.macro": ["include/urcu/wfcqueue.h"], "C11.macro": ["include/urcu/wfstack.h", "include/urcu/lfstack.h"]}["C11.macro"]
+    have = set(n.replace("w_iter_", "") for n, *_ in table)
+    for h in hdrs:
+        for mac in re.findall(r"^#define\s+(\w*for_each\w*)\(", ctx.src(h), re.M):
+            rep.check(mac in have, "C11.macro", "inventory." + mac, "iteration macro has a witness", "iteration macro %s of %s has no witness: not analysed" % (mac, h), [h])
+
+
 RULES = [
     ("C11.wfs", rule_wfs),
     ("C11.lfs", rule_lfs),
     ("C11.locked", rule_locked),
     ("C11.usage", rule_usage),
     ("C11.iter", rule_iter),
+    ("C11.macro", rule_macro),
 ]
 FLOORS = {}
